@@ -160,6 +160,19 @@ def check_location(ctx, case):
         got = dict(got, fp=dict(got['fp'], scheme=ref['fp']['scheme']))
         if not got['path'].startswith(loc[way]['__expected_dir__'] + os.sep):
             ctx.fail('wrong-file-loaded:%s' % way, '%s: loaded %s' % (L, got['path']))
+    # the scheme a library was loaded with must be the one in ITS scheme.yaml, whatever was loaded before it in the process
+    raw = shipped.raw_yaml(L, 'scheme.yaml')
+    raw_remaps = {str(k): [[float(a), str(b)] for a, b in v] for k, v in (raw.get('remaps') or {}).items()}
+    for which, fp in (('by-name', ref['fp']), (way, got['fp'])):
+        if way == 'edited-copy-by-path' and which != 'by-name':
+            continue
+        if fp['scheme']['remaps'] != raw_remaps:
+            extra = sorted(set(fp['scheme']['remaps']) - set(raw_remaps))[:4]
+            missing = sorted(set(raw_remaps) - set(fp['scheme']['remaps']))[:4]
+            ctx.fail('loaded-remaps-differ-from-scheme-file', '%s loaded %s: remap rules differ from its scheme.yaml (extra %s, missing %s)' % (L, which, extra, missing))
+            break
+        if fp['scheme']['n_patterns'] != len(raw.get('patterns') or []) and which == 'by-name':
+            ctx.fail('loaded-patterns-differ-from-scheme-file', '%s: %d patterns loaded, %d in scheme.yaml' % (L, fp['scheme']['n_patterns'], len(raw.get('patterns') or [])))
     d = diff_fp(ref['fp'], got['fp'])
     if d:
         ctx.fail('contents-differ:%s' % way, '%s loaded %s differs from loading by name: %s' % (L, way, d))
